@@ -84,3 +84,9 @@ Lemma export_acyclic_example :
   gexport 3 [] [[([97], HRef 1%nat); ([99], HNum 2)]; [([98], HNum 1)]] (HRef 0) =
   Some (GNode [([97], GNode [([98], GLeaf 1)]); ([99], GLeaf 2)]).
 Proof. vm_compute. reflexivity. Qed.
+
+(* var o = [1]; ({left: o, right: o}) : a shared object is not a cycle, both references export the full copy *)
+Lemma export_shared_example :
+  gexport 3 [] [[([108], HRef 1%nat); ([114], HRef 1%nat)]; [([48], HNum 1)]] (HRef 0) =
+  Some (GNode [([108], GNode [([48], GLeaf 1)]); ([114], GNode [([48], GLeaf 1)])]).
+Proof. vm_compute. reflexivity. Qed.
